@@ -21,9 +21,13 @@ const rule = "SQLite (current, desired) pairs on a real engine, biased to revers
 
 var reversibleKinds = []string{"add-table", "drop-table", "add-index", "drop-index", "add-column", "add-index", "add-table"}
 
-func genCaseInlineUnique(t *rapid.T) Case { return genCaseOpts(t, model.Opts{WordNames: true, NoExprIndex: true}) }
+func genCaseInlineUnique(t *rapid.T) Case {
+	return genCaseOpts(t, model.Opts{WordNames: true, NoExprIndex: true})
+}
 
-func genCase(t *rapid.T) Case { return genCaseOpts(t, model.Opts{NoInlineUnique: true, WordNames: true}) }
+func genCase(t *rapid.T) Case {
+	return genCaseOpts(t, model.Opts{NoInlineUnique: true, WordNames: true})
+}
 
 func genCaseOpts(t *rapid.T, o model.Opts) Case {
 	c := Case{A: model.GenSchema(t, 3, o), Route: rapid.IntRange(0, 1).Draw(t, "route")}
